@@ -3025,7 +3025,7 @@ impl State {
                 };
                 let (src, tok) = match self.debug_map.get(ip) {
                     Some(t) => (
-                        self.sources.iter().position(|s| &s.1 == t.parent()),
+                        self.sources.iter().position(|s| Xstr::ptr_eq(&s.1, t.parent())),
                         (t.range().start, t.range().end),
                     ),
                     None => (None, (0, 0)),
